@@ -156,6 +156,13 @@ func shortName(fn *ssa.Function) string {
 }
 
 func (st *State) panicOb2(f *Frame, ins ssa.Instruction, name, goal, what string) {
+	if other, rec := st.maybePanic(goal); rec {
+		if other != nil {
+			st.pendingForks = append(st.pendingForks, other)
+		}
+		st.assume(goal)
+		return
+	}
 	st.oblige("panic", "panic:"+name, goal, what+" at "+st.pos(ins))
 	st.assume(goal)
 }
@@ -205,7 +212,26 @@ func (st *State) applyContract(f *Frame, ins ssa.Instruction, c *Contract, calle
 	env := &specEnv{st: st, vars: map[string]Value{}, heap: st.heap, old: st.heap, topOld: st.allocTop}
 	// parameter names
 	var names []string
-	if callee != nil {
+	if callee != nil && len(callee.Params) == 0 && (sig.Params().Len() > 0 || sig.Recv() != nil) {
+		// external function: parameter names from the signature
+		if sig.Recv() != nil {
+			n := sig.Recv().Name()
+			if n == "" || n == "_" {
+				n = "self"
+			}
+			names = append(names, n)
+		}
+		for i := 0; i < sig.Params().Len(); i++ {
+			n := sig.Params().At(i).Name()
+			if n == "" || n == "_" {
+				n = fmt.Sprintf("arg%d", i)
+			}
+			names = append(names, n)
+		}
+		if callee.Pkg != nil {
+			env.pkg = callee.Pkg.Pkg
+		}
+	} else if callee != nil {
 		for _, p := range callee.Params {
 			names = append(names, p.Name())
 		}
@@ -274,7 +300,33 @@ func (st *State) applyContract(f *Frame, ins ssa.Instruction, c *Contract, calle
 		st.oblige("pre", fmt.Sprintf("pre:%s@%s:%s", name, strings.TrimPrefix(ord, "call@"), clauseLabel(rq, i)), t, rq.Src+"  [call at "+st.pos(ins)+"]")
 		st.assume(t)
 	}
-	if c.MayPanic && !st.frames[0].contract.mayPanic() {
+	if c.NoReturn {
+		// the callee never returns normally (log.Fatal, os.Exit, ...): an explicit panic point
+		if i := st.recoveringFrame(); i >= 0 {
+			st.havocAll("unwinding from " + name)
+			if !st.unwindTo(i) {
+				st.dead = true
+			}
+			return st.freshResult(name, sig.Results())
+		}
+		if !st.frames[0].contract.mayPanic() {
+			st.oblige("panic", "panic:noreturn:"+name+"@"+strings.TrimPrefix(ord, "call@"), "false", name+" does not return; call at "+st.pos(ins))
+		}
+		st.dead = true
+		return st.freshResult(name, sig.Results())
+	}
+	if c.MayPanic {
+		if i := st.recoveringFrame(); i >= 0 {
+			other := st.clone()
+			other.havocAll("callee " + name + " panicked")
+			if other.unwindTo(other.recoveringFrame()) {
+				st.pendingForks = append(st.pendingForks, other)
+			}
+		} else if !st.frames[0].contract.mayPanic() {
+			st.oblige("panic", "panic:callee-may-panic:"+name+"@"+strings.TrimPrefix(ord, "call@"), "false", name+" may panic by contract; call at "+st.pos(ins))
+		}
+	}
+	if false {
 		st.oblige("panic", "panic:callee-may-panic:"+name+"@"+strings.TrimPrefix(ord, "call@"), "false", name+" may panic by contract; call at "+st.pos(ins))
 	}
 	// recursion: measure must decrease
@@ -595,6 +647,12 @@ func (st *State) builtin(f *Frame, ins ssa.Instruction, b *ssa.Builtin, cc *ssa.
 	case "print", "println":
 		return Value{S: "Tuple"}
 	case "recover":
+		if st.panicking {
+			st.panicking = false
+			v := st.freshValue("recovered", cc.Signature().Results().At(0).Type())
+			st.assume(not(eq(app("i_tag", v.Term), "0")))
+			return v
+		}
 		return Value{T: cc.Signature().Results().At(0).Type(), S: SIface, Term: nilIface}
 	case "close":
 		return Value{S: "Tuple"}
